@@ -42,7 +42,7 @@ func repoDir() string {
 	return "/repo"
 }
 
-func hashTree(repo string, conc bool) string {
+func hashTree(repo string, conc, shim bool) string {
 	h := sha256.New()
 	var files []string
 	ents, _ := os.ReadDir(repo)
@@ -77,7 +77,7 @@ func hashTree(repo string, conc bool) string {
 		fmt.Fprintf(h, "%s %d\n", f, len(b))
 		h.Write(b)
 	}
-	fmt.Fprintf(h, "conc=%v", conc)
+	fmt.Fprintf(h, "conc=%v shim=%v", conc, shim)
 	return hex.EncodeToString(h.Sum(nil))[:16]
 }
 
@@ -91,10 +91,15 @@ func run(dir string, name string, args ...string) (string, error) {
 	return buf.String(), err
 }
 
+// shimProps are the checks that need the generated export shim (white-box
+// access to unexported codecs). Only their worker is built with it, so a tree
+// in which an unexported signature changed breaks at most these checks.
+var shimProps = map[string]bool{"C15": true}
+
 // build returns the path of the worker binary for the current tree.
-func build(conc bool) string {
+func build(conc, shim bool) string {
 	repo := repoDir()
-	key := hashTree(repo, conc)
+	key := hashTree(repo, conc, shim)
 	dir := filepath.Join(root, ".work", key)
 	bin := filepath.Join(dir, "worker")
 	if _, err := os.Stat(bin); err == nil {
@@ -109,7 +114,10 @@ func build(conc bool) string {
 			engineFail("building vinstr: %v\n%s", err, out)
 		}
 	}
-	args := []string{"-repo", repo, "-out", dir, "-export", filepath.Join(root, "export", "zz_verif_export.go.txt")}
+	args := []string{"-repo", repo, "-out", dir}
+	if shim {
+		args = append(args, "-export", filepath.Join(root, "export", "zz_verif_export.go.txt"))
+	}
 	if !conc {
 		args = append(args, "-conc=false")
 	}
@@ -138,7 +146,12 @@ func build(conc bool) string {
 		b, _ = json.MarshalIndent(map[string]any{"Replace": n}, "", " ")
 		os.WriteFile(ov, b, 0o644)
 	}
-	if out, err := run(root, "go", "build", "-overlay", ov, "-o", bin, "./cmd/worker"); err != nil {
+	bargs := []string{"build", "-overlay", ov, "-o", bin}
+	if shim {
+		bargs = append(bargs, "-tags", "verifshim")
+	}
+	bargs = append(bargs, "./cmd/worker")
+	if out, err := run(root, "go", bargs...); err != nil {
 		fmt.Fprint(os.Stderr, out)
 		os.RemoveAll(dir)
 		fmt.Fprintln(os.Stderr, "ENGINE-BUILD the (rewritten) tree does not compile")
@@ -190,13 +203,21 @@ func main() {
 	harness.Root = root
 	switch os.Args[1] {
 	case "build":
-		build(true)
-		build(false)
+		build(true, false)
+		build(false, false)
+		build(false, true)
 	case "replay":
 		if len(os.Args) < 3 {
 			engineFail("replay needs a path")
 		}
-		bin := build(true)
+		bin := build(true, false)
+		if b, err := os.ReadFile(os.Args[2]); err == nil {
+			for p := range shimProps {
+				if strings.Contains(string(b), "\"property\": \""+p+"\"") {
+					bin = build(false, true)
+				}
+			}
+		}
 		cmd := exec.Command(bin, "replay", os.Args[2])
 		cmd.Env = append(env(), "VERIF_ROOT="+root)
 		cmd.Stdout, cmd.Stderr = os.Stdout, os.Stderr
@@ -229,8 +250,12 @@ func main() {
 
 func runCheck(prop, tier string, seed int64) int {
 	t0 := time.Now()
-	// ask a seq build for the metadata only if it exists; otherwise build conc
-	bin := build(true)
+	var bin string
+	if shimProps[prop] {
+		bin = build(false, true)
+	} else {
+		bin = build(true, false)
+	}
 	out, err := exec.Command(bin, "meta", prop).Output()
 	if err != nil {
 		engineFail("meta %s: %v", prop, err)
@@ -239,8 +264,8 @@ func runCheck(prop, tier string, seed int64) int {
 	if err := json.Unmarshal(out, &m); err != nil {
 		engineFail("meta %s: %v (%s)", prop, err, out)
 	}
-	if !m.NeedsConc {
-		bin = build(false)
+	if !m.NeedsConc && !shimProps[prop] {
+		bin = build(false, false)
 	}
 	n := m.Shards
 	if n <= 0 {
